@@ -20,7 +20,9 @@ def obligations():
     H, HH = "harness.c04", "harness.c04_hash"
     A = "symbolic names / residue names / segment ids (strings<=3), chain ids (<=1 char or None), serials and resSeq (any int)"
     K = "element in 6 (incl. virtual), bond type in 5+None, bond order in 1..3+None"
-    return [
+    C = "harness.c04_carriers"
+    T2 = "mdtraj.core.topology.Topology."
+    o = [
         Obl("C04.copy.attrs", "xh", H, "copy_preserves", [T + "Topology.copy", T + "Topology.__eq__"], A,
             "copy keeps every attribute incl. chain ids, bonds are between the copy's own atoms, copy == original", 240, timeout_thorough=900),
         Obl("C04.copy.kinds", "xh", H, "copy_kinds", [T + "Topology.copy"], K, "copy keeps elements, bond types and orders", 240),
@@ -43,6 +45,18 @@ def obligations():
         Obl("C04.atom_bond_eq_hash", "xh", HH, "atom_bond_eq_hash", [T + "Atom.__eq__", T + "Atom.__hash__", T + "Bond.__eq__", T + "Bond.__hash__"], "symbolic names/resSeq, bond type pairs",
             "equal atoms / bonds have equal hash inputs", 180),
     ]
+    o += [
+        Obl("C04.pickle", "xh", C, "pickle_roundtrip", [T2 + "__reduce__/__setstate__ (pickle)", "mdtraj.core.element.Element.__reduce__"], "elements incl. deuterium and virtual site, bond type/order, chain ids (A,B / None / A,A), serials (1..4, non-contiguous, None), protocols 2..5",
+            "pickle round trip preserves every observable attribute, ==, hash and element identity", 600, quick_pre="bt <= 1 and bo <= 1 and proto == 5 and e1 <= 1 and smode <= 1", thorough_pre="bt <= 2 and bo <= 2 and e1 <= 2", timeout_thorough=3000),
+        Obl("C04.dataframe.structure", "xh", C, "dataframe_structure", [T2 + "to_dataframe", T2 + "from_dataframe"], "same, plus equal / different residue numbers and names across the chain boundary",
+            "atoms, residues, chain membership, bonds with type and order survive the data-frame round trip (chain identifiers: see C04.dataframe.chain_ids)", 600, quick_pre="bt <= 1 and bo == 1 and e1 == 0", thorough_pre="bt <= 2 and bo <= 2 and e1 <= 1", timeout_thorough=3000),
+        Obl("C04.dataframe.chain_ids", "xh", C, "dataframe_chain_ids", [T2 + "to_dataframe", T2 + "from_dataframe"], "chain ids A,B / None,None / A,A", "chain identifiers survive the data-frame round trip", 120),
+        Obl("C04.hdf5.record", "xh", C, "hdf5_record", ["mdtraj.formats.hdf5.HDF5TrajectoryFile.topology (setter, getter)"], "elements, chain ids, serials, boundary residues; record written once or replaced",
+            "names, elements, serials, residue names / numbers / segment ids, chain identifiers and membership and the bond graph survive the JSON record (no field for bond type / order)", 600, quick_pre="2 <= e0 <= 3 and e1 == 0 and (not twice or (cmode == 0 and smode == 0))", thorough_pre="e1 <= 1", timeout_thorough=3000),
+        Obl("C04.pdb.conect", "xh", C, "pdb_conect", ["mdtraj.formats.pdb.pdbfile.PDBTrajectoryFile.write", "_write_footer"], "an atom with 1..5 partners, one or two chains, serials 1.. / non-contiguous / None, ter on/off, standard / non-standard / disulfide, residue numbers incl. negative ones that fit the 4-column field",
+            "an independent fixed-column reading of ATOM and CONECT records gives exactly the bonds the writer is meant to list; ATOM fields carry the topology's names, numbers, chain ids, elements", 600, quick_pre="(rsk == 0 or (n_leaves == 1 and not two_chains and smode == 0 and not cys)) and (n_leaves in (1, 5) or (smode == 0 and not cys))"),
+    ]
+    return o
 
 
 MANIFEST_INFO = {
